@@ -124,6 +124,8 @@ struct Result {
 
 // The harness implements these.
 struct Harness {
+  uint64_t seed = 1;           // VERIF_SEED of this run (set by main_driver)
+  int timeout_s = 60;
   virtual ~Harness() {}
   virtual std::vector<std::string> flag_names() = 0;     // names of Result.flags bits
   virtual std::vector<std::string> counter_names() = 0;  // names of Result.counters
@@ -218,6 +220,7 @@ static inline int main_driver(Harness& h, int argc, char** argv) {
   std::string mode = a.count("mode") ? a["mode"] : "C01";
   uint64_t seed = a.count("seed") ? strtoull(a["seed"].c_str(), nullptr, 0) : 1;
   int timeout_s = a.count("case-timeout") ? atoi(a["case-timeout"].c_str()) : 60;
+  h.seed = seed; h.timeout_s = timeout_s;
   h.zygote_init(mode);
 
   if (a.count("gen")) {
@@ -249,6 +252,7 @@ static inline int main_driver(Harness& h, int argc, char** argv) {
   for (uint64_t i = worker; i < ncases; i += nworkers) {
     if (now_s() - t0 > tlimit) { time_cut = true; break; }
     Chooser ch(mix(seed, i)); Case c = h.generate(mode, ch, i);
+    if (c.size() == 1 && c[0].name == "skip") { skipped++; continue; }   // enumeration slot without a case
     Outcome o = run_forked(h, mode, c, timeout_s);
     evals++; ops_total += c.size();
     if (o.timeout) { timeouts++; if (timeout_idx.size() < 8) timeout_idx.push_back(i); continue; }
